@@ -58,17 +58,19 @@ type St struct {
 	Cert      map[string]string `json:"cert"`
 	PrevRec   map[string]bool   `json:"prevrec"`
 	HasPrev   map[string]bool   `json:"hasprev"`
-	PrevFresh map[string]bool   `json:"prevfresh"`
+	PrevCert  map[string]string `json:"prevcert"`
+	Phase     string            `json:"phase"` // of the server's root pair: early | overlap | late | other
 }
 
 // prev holds a node's previous credentials after a credential rotation.
 type prev struct {
 	store nodeenrollment.Storage
 	keyId string
-	fresh bool
+	gen   int // root generation under which these credentials were issued
 }
 
 type Line struct {
+	Unc  bool           `json:"unc"` // real-time histories: the step ran too close to a validity boundary to be judged
 	Tr   string         `json:"tr"`
 	I    int            `json:"i"`
 	Cfg  map[string]any `json:"cfg"`
@@ -128,18 +130,62 @@ type run struct {
 	cfg  Cfg
 	rng  *mrand.Rand
 	prev map[string]*prev
+	gen  int            // number of root promotions so far (a reinitialisation counts two: both roots replaced)
+	ngen map[string]int // generation under which each identity's current certificates were issued
+}
+
+// kind of a certificate set issued under generation g: fresh (current pair), old (the pair before the last
+// promotion: its second chain is from the root that is current now), stale
+func (r *run) certKind(g int) string {
+	switch r.gen - g {
+	case 0:
+		return "fresh"
+	case 1:
+		return "old"
+	}
+	return "stale"
+}
+
+// phase of the server's root pair in real time, and whether a boundary is too close to judge a step
+func (r *run) phase() (string, bool) {
+	if r.cfg.LifeSec <= 0 {
+		return "early", false // default lifetimes: the next root becomes valid in a week
+	}
+	roots, err := types.LoadRootCertificates(r.srv.W.Ctx, r.srv.W.Inner, r.srv.W.StorageOpts()...)
+	if err != nil {
+		return "other", true
+	}
+	now := time.Now()
+	near := false
+	for _, t := range []time.Time{roots.Current.NotBefore.AsTime(), roots.Current.NotAfter.AsTime(), roots.Next.NotBefore.AsTime(), roots.Next.NotAfter.AsTime()} {
+		if d := now.Sub(t); d > -450*time.Millisecond && d < 1050*time.Millisecond {
+			near = true // certificate times are whole seconds: a boundary within the current second is too close
+		}
+	}
+	in := func(x *types.RootCertificate) bool { return !now.Before(x.NotBefore.AsTime()) && !now.After(x.NotAfter.AsTime()) }
+	cv, nv := in(roots.Current), in(roots.Next)
+	switch {
+	case cv && !nv && now.Before(roots.Next.NotBefore.AsTime()):
+		return "early", near
+	case cv && nv:
+		return "overlap", near
+	case !cv && nv && now.After(roots.Current.NotAfter.AsTime()):
+		return "late", near
+	}
+	return "other", true
 }
 
 func (r *run) state() St {
-	st := St{Rec: map[string]bool{}, Cert: map[string]string{}, PrevRec: map[string]bool{}, HasPrev: map[string]bool{}, PrevFresh: map[string]bool{}}
+	st := St{Rec: map[string]bool{}, Cert: map[string]string{}, PrevRec: map[string]bool{}, HasPrev: map[string]bool{}, PrevCert: map[string]string{}}
+	st.Phase, _ = r.phase()
 	for _, k := range r.cfg.CertKeys {
 		if p, ok := r.prev[k]; ok {
 			st.HasPrev[k] = true
-			st.PrevFresh[k] = p.fresh
+			st.PrevCert[k] = r.certKind(p.gen)
 			ni := &types.NodeInformation{Id: p.keyId}
 			st.PrevRec[k] = r.srv.W.Inner.Load(r.srv.W.Ctx, ni) == nil
 		} else {
-			st.HasPrev[k], st.PrevFresh[k], st.PrevRec[k] = false, false, false
+			st.HasPrev[k], st.PrevCert[k], st.PrevRec[k] = false, "none", false
 		}
 		st.Rec[k] = r.srv.RecordPresent(k)
 		st.Cert[k] = "none"
@@ -147,15 +193,18 @@ func (r *run) state() St {
 			switch {
 			case len(n.Creds.CertificateBundles) != 2:
 				st.Cert[k] = "pending"
-			case n.Fresh:
-				st.Cert[k] = "fresh"
 			default:
-				st.Cert[k] = "stale"
+				if _, seen := r.ngen[k]; !seen {
+					r.ngen[k] = r.gen // first time these certificates are observed: issued by the step just executed
+				}
+				st.Cert[k] = r.certKind(r.ngen[k])
 			}
 		}
 	}
 	return st
 }
+
+var waitOps = map[string]bool{"WaitOverlap": true, "RotateWait": true, "ExpireWait": true, "Reinit": true}
 
 func Run(bh Behaviour, seed int64) ([]Line, error) {
 	if len(bh.Cfg.CertKeys) == 0 {
@@ -194,14 +243,19 @@ func Run(bh Behaviour, seed int64) ([]Line, error) {
 	}
 	defer srv.Close()
 	srv.W.Rec.NidEmptyOK = bh.Cfg.Nide
-	r := &run{srv: srv, cfg: bh.Cfg, prev: map[string]*prev{}, rng: mrand.New(mrand.NewSource(world.Uint64Seed(seed, "hsd/"+bh.Id)))}
+	r := &run{srv: srv, cfg: bh.Cfg, prev: map[string]*prev{}, ngen: map[string]int{}, rng: mrand.New(mrand.NewSource(world.Uint64Seed(seed, "hsd/"+bh.Id)))}
 	cfgMap := map[string]any{"nidl": bh.Cfg.Nidl, "base": bh.Cfg.Base}
 	var lines []Line
 	for i, op := range bh.Ops {
 		ln := Line{Tr: bh.Id, I: i + 1, Cfg: cfgMap, Op: op, Obs: Obs{Kinds: []string{}, Offered: []string{}, OfferedPref: []bool{}, Protos: []string{}, Temporary: true, CredsUnch: true, SameKey: true}}
 		ln.Pre = r.state()
+		_, near0 := r.phase()
 		r.step(op, &ln)
 		ln.Post = r.state()
+		// real-time root lifetimes: a step that ran across, or too close to, a validity boundary is not judged
+		if _, near1 := r.phase(); bh.Cfg.LifeSec > 0 && !waitOps[s(op, "op")] && (near0 || near1 || ln.Pre.Phase != ln.Post.Phase || ln.Pre.Phase == "other") {
+			ln.Unc = true
+		}
 		lines = append(lines, ln)
 	}
 	return lines, nil
@@ -308,9 +362,7 @@ func (r *run) step(op map[string]any, ln *Line) {
 		if err := srv.ReinitRoots(); err != nil {
 			ln.Err = err.Error()
 		}
-		for _, p := range r.prev {
-			p.fresh = false
-		}
+		r.gen += 2 // both roots replaced
 		ln.Res = "ok"
 	case "RotateNode":
 		r.rotateNode(op, ln)
@@ -339,7 +391,7 @@ func (r *run) step(op map[string]any, ln *Line) {
 			ln.Res, ln.Err = "harness-error", err.Error()
 			return
 		}
-		srv.Nodes[name] = &hs.Node{Name: name, Storage: p.store, Creds: creds, Fresh: p.fresh}
+		srv.Nodes[name] = &hs.Node{Name: name, Storage: p.store, Creds: creds, Fresh: r.certKind(p.gen) == "fresh"}
 		results, conn, derr := srv.HonestDial(name)
 		delete(srv.Nodes, name)
 		for _, x := range results {
@@ -355,6 +407,9 @@ func (r *run) step(op map[string]any, ln *Line) {
 			ln.Obs.ClientErr = derr.Error()
 		}
 		ln.Res = summarize(ln.Obs.Kinds)
+		if ln.Res == "none" && derr != nil {
+			ln.Res = "temperr" // the node holds no chain that is valid now: it fails before reaching the server
+		}
 	case "NewNode":
 		k := s(op, "k")
 		if _, ok := srv.Nodes[k]; ok {
@@ -404,6 +459,11 @@ func (r *run) step(op map[string]any, ln *Line) {
 		}
 	case "RotateWait":
 		r.rotateWait(ln)
+		if ln.Res == "ok" {
+			r.gen++
+		}
+	case "WaitOverlap":
+		r.waitOverlap(ln)
 	case "ExpireWait":
 		r.expireWait(ln)
 	case "ConnectFlip":
@@ -506,6 +566,9 @@ func (r *run) dial(op map[string]any, ln *Line) {
 		ln.Obs.NotAuthErr = errors.Is(err, nodeenrollment.ErrNotAuthorized)
 	}
 	ln.Res = summarize(ln.Obs.Kinds)
+	if ln.Res == "none" && err != nil {
+		ln.Res = "temperr" // the node holds no chain that is valid now: it fails before reaching the server
+	}
 	if pending && auth == nil && ln.Res == "temperr" && ln.Obs.NotAuthErr {
 		ln.Res = "notauth"
 	}
@@ -576,7 +639,8 @@ func (r *run) rotateNode(op map[string]any, ln *Line) {
 		return
 	}
 	oldKid, _ := nodeenrollment.KeyIdFromPkix(old.CertificatePublicKeyPkix)
-	r.prev[k] = &prev{store: n.Storage, keyId: oldKid, fresh: n.Fresh}
+	r.prev[k] = &prev{store: n.Storage, keyId: oldKid, gen: r.ngen[k]}
+	delete(r.ngen, k) // the new certificates are issued under the current pair
 	// the identity now answers to the new key
 	priv, _ := x509.ParsePKCS8PrivateKey(nc.CertificatePrivateKeyPkcs8)
 	ep := priv.(ed25519.PrivateKey)
@@ -720,24 +784,40 @@ func (r *run) rotateWait(ln *Line) {
 		ln.Res = "skip"
 		return
 	}
-	var until time.Time
-	for _, n := range srv.Nodes {
-		if len(n.Creds.CertificateBundles) == 2 {
-			if t := n.Creds.CertificateBundles[1].CertificateNotBefore.AsTime(); t.After(until) {
-				until = t
-			}
+	before, _ := types.LoadRootCertificates(srv.W.Ctx, srv.W.Inner, srv.W.StorageOpts()...)
+	if before != nil {
+		if d := time.Until(before.Next.NotBefore.AsTime().Add(1200 * time.Millisecond)); d > 0 {
+			time.Sleep(d)
 		}
 	}
-	if d := time.Until(until.Add(1200 * time.Millisecond)); d > 0 {
-		time.Sleep(d)
-	}
-	before, _ := types.LoadRootCertificates(srv.W.Ctx, srv.W.Inner, srv.W.StorageOpts()...)
 	after, err := rotation.RotateRootCertificates(srv.W.Ctx, srv.W.Store, srv.W.StorageOpts(
 		nodeenrollment.WithCertificateLifetime(time.Duration(r.cfg.LifeSec)*time.Second),
 		nodeenrollment.WithNotBeforeClockSkew(0), nodeenrollment.WithNotAfterClockSkew(0))...)
 	if err != nil || before == nil || !bytes.Equal(after.Current.PublicKeyPkix, before.Next.PublicKeyPkix) {
 		ln.Res = "harness-error"
 		ln.Err = fmt.Sprint("rotation did not promote: ", err)
+		return
+	}
+	ln.Res = "ok"
+}
+
+// waitOverlap waits (real time) until the next root has become valid too.
+func (r *run) waitOverlap(ln *Line) {
+	srv := r.srv
+	if ph, _ := r.phase(); r.cfg.LifeSec <= 0 || ph != "early" {
+		ln.Res = "skip"
+		return
+	}
+	roots, err := types.LoadRootCertificates(srv.W.Ctx, srv.W.Inner, srv.W.StorageOpts()...)
+	if err != nil {
+		ln.Res, ln.Err = "harness-error", err.Error()
+		return
+	}
+	if d := time.Until(roots.Next.NotBefore.AsTime().Add(1200 * time.Millisecond)); d > 0 {
+		time.Sleep(d)
+	}
+	if ph, _ := r.phase(); ph != "overlap" {
+		ln.Res, ln.Err = "harness-error", "no overlap period reached: "+ph
 		return
 	}
 	ln.Res = "ok"
@@ -921,7 +1001,7 @@ func (r *run) malformed(op map[string]any, ln *Line) {
 			c.Write(captureClientHello(protos))
 		}
 		honestOK := false
-		if n, ok := srv.Nodes["k1"]; ok && len(n.Creds.CertificateBundles) == 2 && srv.RecordPresent("k1") && n.Fresh {
+		if n, ok := srv.Nodes["k1"]; ok && len(n.Creds.CertificateBundles) == 2 && srv.RecordPresent("k1") && r.certKind(r.ngen["k1"]) == "fresh" {
 			ln.Obs.StallTried = true
 			time.Sleep(300 * time.Millisecond)
 			ctx, cancel := context.WithTimeout(context.Background(), 2500*time.Millisecond)
